@@ -344,3 +344,8 @@ def mirror_verdict_loose(A, e, k, rect, raw, I, B):
         if any(x['ev'] == 'mv_conv' for x in raw) and np.abs(B).max() > e * (1 + 1e-9):
             return 'converged but max|B| > e'
     return None
+
+
+def selftest(ctx):
+    from . import selftest as ST
+    return ST.maxvol(ctx)
